@@ -307,6 +307,22 @@ def main(path):
         return 0
     if sc.get("kind") == "order_battery":
         return order_battery()
+    if sc.get("kind") == "name_battery":
+        # which strings does Variable accept?  oracle: non-empty and only word characters
+        from smoothmath.expression import Variable
+        bad = 0
+        for name in ["", "x", "x1", "_", "1", "Xy_9", "x\n", "\nx", "x\t", "a b", "x-y", "x.y", "é", "x\ny", " ", "x "]:
+            want = bool(name) and all(ch.isalnum() or ch == "_" for ch in name)
+            try:
+                Variable(name)
+                got = True
+            except Exception:
+                got = False
+            if got != want:
+                bad += 1
+                print(f"  FAIL Variable({name!r}) accepted={got}, documented={want}")
+        print("RESULT: violation reproduced on the real code" if bad else "RESULT: no-failing-input-found")
+        return 1 if bad else 0
     if sc.get("kind") == "history_battery":
         import subprocess
         here = os.path.dirname(os.path.abspath(__file__))
